@@ -264,7 +264,10 @@ class DistinctCountCheck(AbstractCheck):
         does not reveal unknown names, for example in the right operand of an ``or``.
         """
         for node in ast.walk(ast.parse(self._expression, mode="eval")):
-            if isinstance(node, ast.Name) and node.id != DistinctCountCheck._COUNT_NAME and not hasattr(builtins, node.id):
+            if not isinstance(node, ast.Name):
+                continue
+            is_count_name = node.id in (DistinctCountCheck._COUNT_NAME, self._field_name_to_count)
+            if not is_count_name and not hasattr(builtins, node.id):
                 raise errors.InterfaceError(
                     "cannot evaluate count expression %r: name %r is not defined" % (self._expression, node.id),
                     self.location_of_rule,
@@ -277,7 +280,10 @@ class DistinctCountCheck(AbstractCheck):
         """
         The current result of `self._expression`.
         """
-        local_variables = {DistinctCountCheck._COUNT_NAME: self._distinct_count()}
+        # NOTE: The name of the field also refers to the count so it can be used more than once in the rule, for
+        #  example "branch_id >= 1 and branch_id <= 5".
+        distinct_count = self._distinct_count()
+        local_variables = {DistinctCountCheck._COUNT_NAME: distinct_count, self._field_name_to_count: distinct_count}
         try:
             result = eval(self._expression, {}, local_variables)
         except (Exception, SystemExit) as message:
